@@ -131,6 +131,16 @@ def run(prop, tier, seed, scratch, replay, t0):
             res = mod.replay(ctx, json.load(open(replay)))
         else:
             res = mod.run(ctx)
+    except common.Infra:
+        raise
+    except Exception:
+        # the harness could not digest what the code under test did (an unexpected type, an exception where none was
+        # foreseen): the property is then not shown to hold on this tree.  Reported as a broken correspondence, with the
+        # traceback as the thing to look at - not as an infrastructure failure, which would hide a change of behaviour.
+        tb = traceback.format_exc()
+        res = common.Result(prop)
+        res.rule = "the check stopped with an exception while exercising the code under test"
+        res.corr_disagreements.append(("harness exception while exercising the code under test", tb[-3000:], "", ""))
     finally:
         if cov is not None:
             cov.stop()
